@@ -8,6 +8,8 @@ package statedb
 import (
 	"sync/atomic"
 	"time"
+
+	"github.com/cilium/statedb/internal"
 )
 
 // Verification hooks. Only compiled with the "verif" build tag; without the
@@ -30,6 +32,17 @@ func verifPoint(point, handle string) {
 	if fn := verifHook.Load(); fn != nil {
 		(*fn)(point, handle)
 	}
+}
+
+// SetVerifLockHook installs the function called by SortableMutexes.Lock/Unlock
+// around each individual table mutex (see internal.SetVerifLockHook).
+func SetVerifLockHook(fn func(phase string, seq uint64)) {
+	internal.SetVerifLockHook(fn)
+}
+
+// VerifTableLockSeq returns the sequence number of the table's mutex.
+func VerifTableLockSeq(t TableMeta) uint64 {
+	return t.sortableMutex().Seq()
 }
 
 // VerifSetGCInterval sets the graveyard collection rate limit interval. Must be
